@@ -176,3 +176,62 @@ def paste_read_scale_sibling(prog: Program) -> List[Instance]:
     if not out:
         out.append(Instance("R-SIBLING", f"{cp.qual}#read-scale-source", INFO, "no Affine.scale(1 / shrink) composition found in _can_paste", cp.where(), nontrivial=False))
     return out
+
+
+def intersect3_overlap_from_both(prog: Program) -> List[Instance]:
+    """C17-r6s2. slice_intersect3 returns (part of a, part of b, common region). On every return that is not the degenerate
+    disjoint answer (a zero-length slice spelled `slice(e, e)`), the common region is built from BOTH operands: start from
+    max() of the starts, stop from min() of the stops. A shortcut that hands back one operand's own bounds as the common
+    region (`slice(a.start, a.stop)`: "a lies inside b") is wrong whenever that operand is empty or reversed."""
+    f = prog.func("roi:slice_intersect3")
+    out: List[Instance] = []
+    pp = set(f.param_names())
+    for r in (n for n in walk_own(f.node) if isinstance(n, ast.Return) and isinstance(n.value, ast.Tuple) and len(n.value.elts) == 3):
+        third = r.value.elts[2]
+        if not (isinstance(third, ast.Call) and call_name(third) == "slice" and len(third.args) >= 2):
+            continue
+        lo, hi = third.args[0], third.args[1]
+        if ast.dump(lo) == ast.dump(hi):
+            continue  # degenerate by construction
+        lo_x, hi_x = expand_locals(f.node, lo, depth=3, keep=pp), expand_locals(f.node, hi, depth=3, keep=pp)
+        both = lambda e: len({x.id for x in ast.walk(e) if isinstance(x, ast.Name) and x.id in pp}) >= 2  # noqa: E731
+        raw_one = lambda e: isinstance(e, ast.Attribute) and isinstance(e.value, ast.Name) and e.value.id in pp  # noqa: E731
+        if raw_one(lo_x) and raw_one(hi_x) and short(lo_x).split(".")[0] == short(hi_x).split(".")[0]:
+            out.append(Instance("R-SIBLING", f"{f.qual}#common-from-both:{short(third, 30)}", BAD,
+                                f"`{short(r, 70)}` hands back `{short(third)}` - one operand's own bounds - as the common region: for an empty or reversed operand that 'lies inside' the other the three answers no longer select the same elements", f.where(r)))
+        elif both(lo_x) and both(hi_x):
+            out.append(Instance("R-SIBLING", f"{f.qual}#common-from-both:{short(third, 30)}", OK, "the common region is computed from the bounds of both operands", f.where(r)))
+    if not out:
+        out.append(Instance("R-SIBLING", f"{f.qual}#common-from-both", INFO, "no three-slice return with a non-degenerate common region found", f.where(), nontrivial=False))
+    return out
+
+
+def crs_eq_text_verdicts(prog: Program) -> List[Instance]:
+    """C19-r6s1. CRS.__eq__ may answer from text alone only where text is conclusive: `True` when the two texts are equal,
+    and a full verdict (True or False) only when both are canonical `EPSG:<n>` strings (one registry, one spelling).
+    Any other return of a comparison derived from `_str` can answer False for two spellings / registries of one CRS
+    (ESRI:102100 vs EPSG:3857) while each still equals the WKT form: equality stops being transitive."""
+    f = prog.func("crs:CRS.__eq__")
+    cond = Conditions(f.body)
+    org = Origins(f)
+    out: List[Instance] = []
+
+    def from_text(e: ast.AST) -> bool:
+        for x in org.closure(e) if hasattr(org, "closure") else ast.walk(e):
+            if isinstance(x, ast.Attribute) and x.attr == "_str":
+                return True
+        return False
+
+    for r in (n for n in walk_own(f.node) if isinstance(n, ast.Return) and isinstance(n.value, ast.Compare) and len(n.value.ops) == 1 and isinstance(n.value.ops[0], (ast.Eq, ast.NotEq))):
+        v = r.value
+        l, rr = v.left, v.comparators[0]
+        if not (from_text(l) and from_text(rr)):
+            continue
+        cs = conds_at(cond, r)
+        epsg_both = sum(1 for e, p in cs if p and isinstance(e, ast.Call) and call_name(e) == "startswith" and e.args and isinstance(e.args[0], ast.Constant) and str(e.args[0].value).upper().startswith("EPSG")) >= 2
+        out.append(Instance("R-VALUEOBJ", f"{f.qual}#text-verdict:{short(v, 30)}", OK if epsg_both else BAD,
+                            "a verdict from text alone is given only for two canonical EPSG:<n> strings" if epsg_both else
+                            f"`{short(r)}` decides equality (including *unequal*) from text derived from `_str` outside the both-EPSG case: two spellings / registries of one CRS (ESRI:102100, EPSG:3857) compare unequal while both equal the WKT form - not transitive", f.where(r)))
+    if not out:
+        out.append(Instance("R-VALUEOBJ", f"{f.qual}#text-verdict", INFO, "CRS.__eq__ returns no comparison of texts", f.where(), nontrivial=False))
+    return out
